@@ -110,6 +110,8 @@ Jobs_C19 ==
      Sweep("atan_index_aprox", "fx", ZNeg(P(19)), P(19), NR(61, 1)), RandB("atan_index_aprox", <<"fx">>, NR(5000, 200000), Seed + 4, 47),
      RandB("atan_index_aprox", <<"fx">>, NR(3000, 100000), Seed + 5, 24)>>
    \o S2Q({Call(op, <<"i32">>, <<d>>) : op \in {"sin_angle_aprox", "cos_angle_aprox"}, d \in I32Lm})
+   (* thorough: every one of the 2^32 angles, aggregated by the driver into one event per distinct (d mod 360, result) *)
+   \o (IF Thorough THEN <<[k |-> "class32", op |-> "sin_angle_aprox"], [k |-> "class32", op |-> "cos_angle_aprox"]>> ELSE <<>>)
    \o Octaves("sqrt_aprox", 16, 36, NR(48, 1024)) \o S2Q({Call("sqrt_aprox", <<"fx">>, <<x>>) : x \in {ZN(-1), ZNeg(P(40)), Lowestv, P(37) -- Z1, Z0, Z1}})
    \o Octaves("atan_index_aprox", 19, 46, NR(32, 512)) \o OctavesNeg("atan_index_aprox", 19, 46, NR(32, 512))
 
